@@ -64,6 +64,8 @@ type Contract struct {
 	Lemmas   []ast.Expr
 	Cuts     []*Clause // intermediate facts proved at exit, in order, then available to the ensures
 	Loops    map[int]*LoopSpec
+	// rowloop: loops over the RNS rows verified for one generic row (see execRowLoop)
+	RowLoops map[int]*RowLoopSpec
 	// veckernel sugar
 	Vec *VecSpec
 	// wraps callee(args): the contract is the callee's contract under the substitution params := args
@@ -71,6 +73,17 @@ type Contract struct {
 	// engine F / B annotations are kept raw
 	Raw map[string][]string
 	Props []string // property ids this contract serves
+	curRow *RowLoopSpec
+}
+
+type RowLoopSpec struct {
+	Var    string
+	Lo, Hi ast.Expr
+	Out    []ast.Expr // output polynomials (their row Var is what the iteration may write)
+	Pre    []*Clause
+	Post   []*Clause
+	Calls  []*WrapSpec // rowcall: the iteration must establish the callee's contract on these arguments
+	Line   string
 }
 
 type WrapSpec struct {
@@ -327,6 +340,63 @@ func handleLine(cur **Contract, out *[]*Contract, pkgPath, text, line string) er
 		default:
 			return fmt.Errorf("%s: unknown loop clause %q", line, f[1])
 		}
+	case "rowloop":
+		// rowloop <ordinal> <var> <lo> <hi> out=<poly>,<poly>
+		f := strings.Fields(rest)
+		if len(f) < 5 {
+			return fmt.Errorf("%s: rowloop expects: <ordinal> <var> <lo> <hi> out=<polys>", line)
+		}
+		n, err := strconv.Atoi(f[0])
+		if err != nil {
+			return fmt.Errorf("%s: bad rowloop ordinal", line)
+		}
+		rl := &RowLoopSpec{Var: f[1], Line: line}
+		if rl.Lo, err = parser.ParseExpr(f[2]); err != nil {
+			return fmt.Errorf("%s: %v", line, err)
+		}
+		if rl.Hi, err = parser.ParseExpr(f[3]); err != nil {
+			return fmt.Errorf("%s: %v", line, err)
+		}
+		for _, a := range f[4:] {
+			if strings.HasPrefix(a, "out=") {
+				es, err := parseExprList(strings.TrimPrefix(a, "out="), line)
+				if err != nil {
+					return err
+				}
+				rl.Out = es
+			}
+		}
+		if c.RowLoops == nil {
+			c.RowLoops = map[int]*RowLoopSpec{}
+		}
+		c.RowLoops[n] = rl
+		c.curRow = rl
+	case "rowpre", "rowpost":
+		if c.curRow == nil {
+			return fmt.Errorf("%s: %s without rowloop", line, kw)
+		}
+		cl, err := parseClause(rest, line)
+		if err != nil {
+			return err
+		}
+		if kw == "rowpre" {
+			c.curRow.Pre = append(c.curRow.Pre, cl)
+		} else {
+			c.curRow.Post = append(c.curRow.Post, cl)
+		}
+	case "rowcall":
+		if c.curRow == nil {
+			return fmt.Errorf("%s: rowcall without rowloop", line)
+		}
+		e, err := parser.ParseExpr(rest)
+		if err != nil {
+			return fmt.Errorf("%s: %v", line, err)
+		}
+		call, ok := e.(*ast.CallExpr)
+		if !ok {
+			return fmt.Errorf("%s: rowcall expects callee(args)", line)
+		}
+		c.curRow.Calls = append(c.curRow.Calls, &WrapSpec{Callee: exprStringAST(call.Fun), Args: call.Args})
 	case "wraps":
 		e, err := parser.ParseExpr(rest)
 		if err != nil {
